@@ -97,6 +97,84 @@ def _validate(ctx, label, trace, env, plan, impl_sims):
         ctx.notes.append("%s: no verdict from TraceResize (implementation-level): %s" % (label, (r2.violation or r2.out_tail)[-600:]))
 
 
+def _repo_trace(ctx, label, pkg, run_re, timeout):
+    """Run the repository's own resize tests with hook recording on (build tag verif) and
+    convert each coordinator's event stream to the trace format of TraceResizeAbs."""
+    import subprocess
+    raw = os.path.join(ctx.scratch, "repo-%s.raw" % label)
+    env = dict(os.environ)
+    env.update(vlib.GOENV)
+    env.update({"VERIF_RESIZE_TRACE": raw, "TMPDIR": ctx.scratch})
+    cmd = ["timeout", str(timeout), "go", "test", "-mod=mod", "-vet=off", "-count=1", "-tags", "verif", "-run", run_re, pkg]
+    p = subprocess.run(cmd, cwd=vlib.REPO, env=env, stdout=subprocess.PIPE, stderr=subprocess.STDOUT, text=True)
+    if p.returncode != 0 or not os.path.exists(raw):
+        ctx.notes.append("repository tests %s %s with hooks on: rc=%s (not used)\n%s" % (pkg, run_re, p.returncode, p.stdout[-800:]))
+        return None
+    by = {}
+    jobc = {}
+    evs = [json.loads(l) for l in open(raw) if l.strip()]
+    evs.sort(key=lambda e: e["seq"])
+    for e in evs:
+        c = e["c"]
+        if e["point"] in ("job_start", "job_reject"):
+            jobc[e["kv"][0]] = c
+        if not c and e["kv"] and e["kv"][0] in jobc:
+            c = jobc[e["kv"][0]]
+        by.setdefault(c, []).append(e)
+    out = os.path.join(ctx.scratch, "trace-repo-%s.ndjson" % label)
+    nsim = 0
+    with open(out, "w") as g:
+        for c, es in by.items():
+            if not any(e["point"] == "job_start" for e in es):
+                continue
+            first = next(k for k, e in enumerate(es) if e["point"] == "enqueue")
+            members = []
+            for e in es[:first]:
+                if e["point"] == "members":
+                    members = e["kv"][0]
+            names, jobs = {}, {}
+
+            def nm(x):
+                return names.setdefault(x, "n%d" % len(names))
+
+            def rec(ev, **kw):
+                r = {"ev": ev, "j": 0, "n": "", "a": "", "s": "", "ids": [], "oks": [], "done": False}
+                r.update(kw)
+                g.write(json.dumps(r) + "\n")
+            rec("reset", ids=[nm(x) for x in sorted(members)])
+            state = "NORMAL"
+            for e in es[first:]:
+                pt, kv = e["point"], e["kv"]
+                if pt.startswith("gate:") or pt.startswith("result_"):
+                    continue
+                if pt == "state":
+                    state = kv[0]
+                    rec("state", s=kv[0])
+                elif pt == "members":
+                    rec("members", ids=sorted(nm(x) for x in kv[0]))
+                elif pt == "enqueue":
+                    rec("enqueue", a=kv[0], n=nm(kv[1]))
+                elif pt in ("job_start", "job_reject"):
+                    j = jobs.setdefault(kv[0], len(jobs) + 1)
+                    if pt == "job_start":
+                        rec(pt, j=j, a=kv[1], n=nm(kv[2]), ids=sorted(nm(x) for x in kv[3]),
+                            oks=sorted(nm(x) for x, d in kv[3].items() if d))
+                    else:
+                        rec(pt, j=j)
+                elif pt == "job_end":
+                    rec(pt, j=jobs.get(kv[0], 0), s=kv[1], done=bool(kv[2]))
+                elif pt in ("complete_ok", "complete_err"):
+                    rec(pt, j=jobs.get(kv[0], 0), n=nm(kv[1]))
+                elif pt == "abort":
+                    rec(pt, j=jobs.get(kv[0], 0))
+            rec("end", s=state, done=True)
+            nsim += 1
+    if nsim == 0:
+        ctx.notes.append("repository tests %s %s: no resize job recorded" % (pkg, run_re))
+        return None
+    return out
+
+
 def run(ctx):
     thorough = ctx.tier == "thorough"
     ctx.rule = ("behaviour = an environment schedule generated by TLC from spec/Resize.tla (joins, re-joins, leaves, "
@@ -159,4 +237,26 @@ def run(ctx):
     # 3. (B)
     for label, tr, env in traces:
         _validate(ctx, label, tr, env, plan, impl_sims=400 if thorough else 60)
+    # the repository's own resize tests, hooks recording (abstract specification only: the
+    # implementation-level constants describe the harness's cluster)
+    repo_runs = [("root", ".", "TestCluster_ResizeStates", 600)]
+    if thorough:
+        repo_runs.append(("server", "./server/", "TestClusterResize", 900))
+    for label, pkg, rx, to in repo_runs:
+        tr = _repo_trace(ctx, label, pkg, rx, to)
+        if tr is None:
+            continue
+        r = vlib.tlc("TraceResizeAbs", "TraceResizeAbs", ctx.scratch, files={"trace.ndjson": tr}, workers=1, timeout=600)
+        ctx.tlc_runs.append(("TraceResizeAbs", "repo-" + label, r))
+        ok, prefix = _verdict(r)
+        nev = sum(1 for _ in open(tr))
+        vlib.log("trace repo tests %s %s: %d events: %s" % (pkg, rx, nev, "accepted" if ok else "REJECTED at %d" % prefix if ok is False else "no verdict"))
+        if ok:
+            ctx.validated += nev
+        elif ok is False:
+            ev = open(tr).read().splitlines()[min(prefix, nev - 1)]
+            # the repository's tests are not ours to replay deterministically: reported, never a verdict by itself
+            ctx.inconclusive.append("execution of the repository's test %s %s rejected by TraceResizeAbs at event %d: %s" % (pkg, rx, prefix, ev))
+        else:
+            ctx.notes.append("repo trace %s: no verdict: %s" % (label, (r.violation or r.out_tail)[-500:]))
     ctx.exhaustive = False
